@@ -2,6 +2,7 @@ import BM.Proofs.RegexLemmas
 import BM.Gen.Shipped
 import BM.Spec.More
 import BM.Proofs.RegexSem
+import BM.Proofs.RegexAnchored
 /-
   C19: the exported attribute matchers are anchored, closed-alphabet recognisers.
   For each of the eleven matchers, on the regular expression regenerated from helpers.go on
@@ -75,5 +76,16 @@ theorem examples_accepted :
 /-- and near misses are rejected (tests on literals, not the unbounded claim) -/
 example : Re.matchBytes Gen.patISO8601 b!"2000-01-01T00:00:00<1" = false ∧
           Re.matchBytes Gen.patInteger b!"1<" = false ∧ Re.matchBytes Gen.patCellAlign b!"center\n" = false := by decide
+
+set_option maxRecDepth 100000 in
+theorem exported_anchored : ∀ nr ∈ Gen.exportedMatchers, Re.anchoredBoth nr.2 = true := by decide
+
+/-- **C19, "matches against the whole value"**: for each of the exported matchers (regenerated from
+    helpers.go), `MatchString` is true exactly when the expression matches, in the declarative
+    relation `Re.Matches`, from the first rune of the value to its end — never a part of it -/
+theorem C19_whole_value : ∀ nr ∈ Gen.exportedMatchers, ∀ v : Bytes,
+    Re.matchBytes nr.2 v = true ↔ ∃ p', Re.Matches nr.2 .none (decodeRunes v) p' [] := by
+  intro nr hnr v
+  exact Re.search_anchored nr.2 (exported_anchored nr hnr) (decodeRunes v)
 
 end BM.Props
